@@ -10,7 +10,6 @@ import (
 
 	"github.com/google/mtail/internal/runtime/compiler/ast"
 	"github.com/google/mtail/internal/runtime/compiler/parser"
-	"github.com/google/mtail/internal/runtime/compiler/types"
 )
 
 // C04 — accepted programs never fault inside the VM.
@@ -66,8 +65,7 @@ var vmCaseCounter int
 
 // c04KnownShape recognises, syntactically, the call sites of the recorded findings: a pattern
 // constant used as a value (operand of a comparison or of arithmetic other than the concatenating
-// `+', or index key), and strptime() given an integer as the time string.  Anything else that
-// faults keeps its own class and is reported.
+// `+', or index key).  Anything else that faults keeps its own class and is reported.
 type c04ShapeFinder struct{ found string }
 
 func (f *c04ShapeFinder) isPatternConst(n ast.Node) bool {
@@ -102,14 +100,6 @@ func (f *c04ShapeFinder) VisitBefore(n ast.Node) (ast.Visitor, ast.Node) {
 			for _, c := range el.Children {
 				if f.isPatternConst(c) {
 					f.found = "pattern-constant-as-value"
-				}
-			}
-		}
-	case *ast.BuiltinExpr:
-		if v.Name == "strptime" && v.Args != nil {
-			if el, ok := v.Args.(*ast.ExprList); ok && len(el.Children) > 0 && f.found == "" {
-				if t := el.Children[0].Type(); t != nil && types.Equals(t, types.Int) {
-					f.found = "strptime-integer-argument"
 				}
 			}
 		}
@@ -246,6 +236,14 @@ func init() {
 			}
 			for _, c := range vmGenCases(g, n, ex) {
 				g.emit(c.fields()...)
+			}
+			// programs that once faulted (repaired): non-string first arguments of strptime
+			for _, p := range []string{
+				"counter c\n/(\\d+)/ {\n  strptime(len($1), \"2006\")\n  c++\n}\n",
+				"counter c\n/(\\d+\\.\\d+)/ {\n  strptime($1 * 2.0, \"2006\")\n  c++\n}\n",
+				"counter c\ngauge g\n/(\\d+)/ {\n  g = $1\n  strptime(g, \"2006\")\n  c++\n}\n",
+			} {
+				g.emit(vmCase{"-", p, []string{"2020", "20.5", "x", "1999"}}.fields()...)
 			}
 		},
 		run: c04Run,
